@@ -20,8 +20,12 @@ def _has_getslice(t):
     return False
 
 
-def _build(rec, interp=None, rename_as_str=False, watch=None, index_style="plain", delta_point_as_tensor=False):
+def _build(rec, interp=None, rename_as_str=False, watch=None, index_style="plain", delta_point_as_tensor=False,
+           subs_pair_order="call"):
     b = fbuild.Builder(watch=watch)
+    b.subs_pair_order = subs_pair_order
+    if subs_pair_order == "reversed":
+        b.real_num_as_tensor = True     # a python float in a partial Gaussian substitution raises (decline)
     b.rename_as_str = rename_as_str
     b.delta_point_as_tensor = delta_point_as_tensor
     b.index_style = index_style
@@ -67,7 +71,8 @@ def c01(rec):
 # ---------------------------------------------------------------------------
 # shared helpers
 
-from .modes_carrier import in_carrier  # noqa: E402
+from .modes_carrier import (in_carrier, nested_same_binder_feature, identity_subs_feature,  # noqa: E402
+                            rename_onto_input_feature)
 
 
 def _verdict(prop, st, cl=None, det=None, **kw):
@@ -190,6 +195,21 @@ def c04(rec):
                 out.append(bad)
                 continue
         out.append(_eval_check(r, exp, "C04", "lazy"))
+    # the same pairs handed to Subs in reverse input order (a substitution is a map)
+    if len(rec["t"]["subs"]) > 1:
+        try:
+            r = _build(rec, None, subs_pair_order="reversed")
+            out.append(_eval_check(r, exp, "C04", "reversed_pairs", need_output=False))
+        except Exception as e:  # noqa
+            out.append(_verdict("C04", "declined_error", "reversed_pairs:" + type(e).__name__))
+    # built under normalize (its own substitution rules), then evaluated
+    try:
+        with normalize:
+            y = fbuild.Builder().build(rec["t"])
+        r = funsor.reinterpret(y) if isinstance(y, Funsor) else y
+        out.append(_eval_check(r, exp, "C04", "normalize_then_eager", need_output=False))
+    except Exception as e:  # noqa
+        out.append(_verdict("C04", "declined_error", "normalize:" + type(e).__name__))
     return out
 
 
@@ -774,6 +794,12 @@ def c11(rec):
                     feats.append("broadcast_under_reduction")
                 if _leaf_occurrences(rec["t"], a["leaf"]) > 1:
                     feats.append("repeated_leaf")
+                if nested_same_binder_feature(rec["t"]):
+                    feats.append("nested_same_binder")
+                if identity_subs_feature(rec["t"]):
+                    feats.append("identity_subs")
+                if rename_onto_input_feature(rec["t"]):
+                    feats.append("rename_onto_input")
                 v["feature"] = "+".join(feats) or "none"
             out.append(v)
     return out
@@ -853,10 +879,19 @@ def c12(rec):
     exp = rec["exp"]
     out = []
     want = {n for n, _ in exp["ins"]}
-    for as_tensor in (False, True):
+    def multi_sub(t):
+        if isinstance(t, dict):
+            return (t.get("c") == "Sub" and len(t["subs"]) > 1) or any(multi_sub(v) for v in t.values())
+        if isinstance(t, list):
+            return any(multi_sub(v) for v in t)
+        return False
+    variants = [(False, "call", "eager"), (True, "call", "tensor_arg")]
+    if multi_sub(rec["t"]):
+        variants.append((True, "reversed", "reversed_pairs"))   # Subs(g, pairs) in reverse input order
+    for as_tensor, order, what in variants:
         b = fbuild.Builder()
         b.real_num_as_tensor = as_tensor
-        what = "tensor_arg" if as_tensor else "eager"
+        b.subs_pair_order = order
         try:
             r = b.build(rec["t"])
         except Exception as e:  # noqa
